@@ -18,20 +18,20 @@ CLAIMED = {
          "1..2 (3) arbitrary digits; flag arbitrary) and the real expandForks / resolveInputs / resolvePipelineOutputs (resolve, resolveRef, resolveSplit, "
          "resolveMerge, resolveDisabledExp, getParts, Path) must deliver exactly what the text says each call receives: dynamic map call over an array and over "
          "a typed map, unsplit arguments, merges, a map call nested in a mapped pipeline with producers finishing in any order, struct projection, literals "
-         "with references, a call disabled by an upstream flag, pipeline outputs.",
+         "with references, a call disabled by an upstream flag, pipeline outputs. H_C01_disabledInMapped: a call disabled per element inside a mapped pipeline; H_C01_disabledSiblings: two sibling calls below three nested sub-pipelines, all five run-time flags symbolic; H_C01_constFromMapped: constants collected from a pipeline mapped over a run-time array of 0..2 (3) elements (dependency on the array's producer and one copy per element).",
          "Trusted: go/ssa, symgo, z3; the reference JSON decoder that replaces encoding/json for the value shapes the harness produces; Metadata.read "
          "replaced by the harness's choice of _outs. Outside: other programs, strings/floats/nested structs as values, more than two fork dimensions, "
          "top-level _outs writing.",
-         "DESIGN.md §4 (C01)"),
+         "DESIGN.md §4 (C01) Also fixed: constant collected from a mapped pipeline delivered unresolved; known: static mapped collection with run-time flags."),
  "C02": ("One step of the real scheduler code (Fork.step/stepStage/doSplit/doChunks/doJoin/doComplete, Chunk.step, Node.step/getState, "
          "runJob) from an arbitrary sentinel-file state: every combination of _errors/_assert/_complete/_disabled/_log/_jobinfo/_stage_defs on "
          "split, chunks, join and fork metadata (= every instant of every schedule) is symbolic under the phase invariant; a recording fake job "
          "manager is the observer. Asserted: chunk jobs only after split complete, join only after all chunks complete, a node submits only "
-         "when running and enters running only when producer, disabling source and every enclosing preflight are done.",
+         "when running and enters running only when producer, disabling source and every enclosing preflight are done. H_C02_preflightBindings: which bindings a preflight call may have (a reference inside a collection literal is a known finding).",
          "Trusted: go/ssa, symgo, z3; the OS-boundary and AST/JSON stubs listed in the evidence (each returns an arbitrary outcome within its contract); the assumed representation invariant PhaseInv; the hand-built graph (one fork per node, <=2 chunks, P{PRE,A,C,Q{R{B}}}) and the MRO text of the real-graph fixture (instantiated by the real compiler and runtime inside the engine). Dynamic fork expansion and static fork enumeration run on instantiated pipelines (H_C01_*). Outside: real processes and job-manager queues.", "DESIGN.md §4 (C02)"),
  "C03": ("Same harness family as C02, plus two consecutive steps with arbitrary job progress and an optional restart in between: no metadata is "
          "handed to execJob twice, a job is submitted only from its empty state and then carries _jobinfo, exactly the chunks _stage_defs lists are "
-         "created, a disabled fork submits nothing and is marked disabled; MakeForkIds yields exactly one id per element/key; constant disabling conditions are pruned only when all-false / all-true.",
+         "created, a disabled fork submits nothing and is marked disabled; MakeForkIds yields exactly one id per element/key; constant disabling conditions are pruned only when all-false / all-true. H_C01_disabledSiblings (five run-time flags, which calls run); H_C05_chunkIdentity (a restart looks for every chunk where it was created); H_C06_splitRetry (a re-run split defining another number of chunks).",
          "Trusted: go/ssa, symgo, z3; the OS-boundary and AST/JSON stubs listed in the evidence (each returns an arbitrary outcome within its contract); the assumed representation invariant PhaseInv; the hand-built graph (one fork per node, <=2 chunks, P{PRE,A,C,Q{R{B}}}) and the MRO text of the real-graph fixture (instantiated by the real compiler and runtime inside the engine). Dynamic fork expansion and static fork enumeration run on instantiated pipelines (H_C01_*). Outside: real processes and job-manager queues. Static fork enumeration (MakeForkIds on static arrays / maps of 1..3 entries) and the compile-time pruning of constant disabling conditions have their own harnesses.", "DESIGN.md §4 (C03)"),
  "C04": ("Decision and bookkeeping of volatile data removal from the real code: partialVdrKill from arbitrary coarse states of the "
          "producer fork and two consumers with arbitrary keep-alive membership (incl. the top-level/retain holder), and the real "
@@ -45,7 +45,7 @@ CLAIMED = {
  "C14": ("Partial (accounting and phases): same harnesses as C04. Asserted: the kill report's size and count grow by exactly the cached sizes/"
          "counts of the removed paths (collapsed children included, on top of an existing partial report), every reported path was passed to "
          "RemoveAll and lies inside the fork directory, everything nothing keeps alive is reclaimed, split/chunk/join temp cleaning runs in the "
-         "phases named and never twice (restart between partial and final).",
+         "phases named and never twice (restart between partial and final). H_C14_cleanTemp: the real clean*Temp on a file-system model (0..3 chunks, 0..1 (2) scratch files of arbitrary size, any tmp/ already missing); H_C04_killNonVolatile with 0..3 chunks; a kill which writes the final report announces it.",
          "Trusted: as C04. Outside: what survives on disk, the temp-directory walks themselves (clean*Temp internals), event time-lines, the "
          "pipestance-level merge.",
          "DESIGN.md §4 (C14)"),
@@ -53,20 +53,20 @@ CLAIMED = {
          "The real checkedReset/restartLocal/restartQueuedLocal/uncheckedReset/removeAll run on them (process liveness, recorded pid and "
          "_jobinfo readability arbitrary): a job with recorded completion is never reset, exactly failed / queued / dead-process jobs are, and "
          "nothing of the old attempt stays cached; Pipestance.Reset + RestartLocalJobs (what mrp does on re-attach) leaves no chunk queued or running under a dead process; two scheduler steps with a restart in between never resubmit a job with recorded progress; "
-         "Lock refuses an existing _lock without side effects and a handled signal removes it.",
+         "Lock refuses an existing _lock without side effects and a handled signal removes it. H_C06_restartMapped: Pipestance.Reset on a mapped stage with arbitrary per-fork states, chunk-granular and full stage reset.",
          "Trusted: go/ssa, symgo, z3, the OS-boundary stubs listed in the evidence, the crash-consistency assumption. Outside: equality of final "
          "outputs with an uninterrupted run, RestoreForks end to end, VDR/post-processing interruption, the real signal machinery, SIGKILL windows.",
          "DESIGN.md §4 (C05)"),
  "C06": ("Partial (scheduler decision kernel): faults are symbolic sentinel files and stub verdicts — _errors/_assert in any combination, "
          "unreadable or invalid outputs, unparseable _stage_defs. Asserted: failure precedence, a failed job fails its fork and node, a failed "
          "node stays on the frontier and the pipestance state is failed never complete, consumers wait and submit nothing, independent stages "
-         "are unaffected, invalid outputs write _errors and never _complete; LocalJobManager.Enqueue with the job process replaced by an arbitrary outcome per attempt leaves _errors behind for every failed process, re-runs only spawn failures and at most maxRetries times.",
+         "are unaffected, invalid outputs write _errors and never _complete; LocalJobManager.Enqueue with the job process replaced by an arbitrary outcome per attempt leaves _errors behind for every failed process, re-runs only spawn failures and at most maxRetries times. H_C06_restartMapped (no fork reports complete after a reset unless its _complete is still there), H_C06_dynamicForkError (the error of any job of a run-time fork is reported by name, whatever the other forks do), H_C06_splitRetry (n1, n2 in 0..3).",
          "Trusted: go/ssa, symgo, z3; the OS-boundary and AST/JSON stubs listed in the evidence (each returns an arbitrary outcome within its contract); the assumed representation invariant PhaseInv; the hand-built graph (one fork per node, <=2 chunks, P{PRE,A,C,Q{R{B}}}) and the MRO text of the real-graph fixture (instantiated by the real compiler and runtime inside the engine). Dynamic fork expansion and static fork enumeration run on instantiated pipelines (H_C01_*). Outside: real processes and job-manager queues. Also outside: mrjob (how the monitor turns an exit status into _errors), transient-error regexps and mrp attemptRetry, mrp exit code, restart after the fault is removed.", "DESIGN.md §4 (C06)"),
  "C07": ("Partial (one binding between two stages over a 13-type family): for every pair (DST, SRC) of int, float, string, bool, a file type, int[], float[], int[][], "
          "map<int>, map<float>, two structs (one a superset of the other) and an array of structs the program text `CONSUMER(x = PRODUCER.o)` is generated and compiled by "
          "the real compiler; the oracle is the documented conversion list (identity, int->float, string<->file type, equal array depth / typed map with assignable "
          "elements, struct->struct with all fields present). Accepted exactly when convertible; a rejection names file and line of the binding; for accepted pairs a "
-         "generated conforming SRC value (arbitrary leaves, undeclared struct fields) filtered to DST - the runtime's step at the stage boundary - validates against DST.",
+         "generated conforming SRC value (arbitrary leaves, undeclared struct fields) filtered to DST - the runtime's step at the stage boundary - validates against DST. 20 literals incl. integral floats bound to int, with the delivered JSON checked against the parameter type.",
          "Trusted: go/ssa, symgo, z3, the assignability oracle and the reference JSON decoder in the harness. Outside: every other program shape (projections, map-call "
          "dimensions, literals, untyped maps, missing/unknown parameters, split consistency), leaf decoding, routing (C01).",
          "DESIGN.md §4 (C07)"),
@@ -74,7 +74,7 @@ CLAIMED = {
          "expression parser (yacc tables + grammar actions); 19/20-digit integer tokens and 8-hex-digit \\U escapes get their own harnesses. "
          "Include resolution (parseSource/getIncludes/checkIncludes/merge) runs on 1..3 (4) files with an arbitrary include relation: an error exactly for reachable cycles, no unbounded recursion. "
          "An uncaught Go panic on any path is a violation with concrete bytes, replayed natively. Partial: lexer contract and "
-         "token-consuming actions, not arbitrary long token sequences.",
+         "token-consuming actions, not arbitrary long token sequences. H_C08_compileCorners: seven programs which used to crash the compiler (mutual recursion, 1e39 resources, ...) end with an error or a result.",
          "Trusted: go/ssa, symgo, regex VM model, z3 / cvc5 --solve-bv-as-int (integer-token harness). The numeric value of a "
          "symbolic float literal is cut to an opaque value (float range errors outside). Outside: long inputs, larger include "
          "graphs, compile passes, time/memory proportionality.",
@@ -82,7 +82,7 @@ CLAIMED = {
  "C09": ("String values of up to 3 (thorough 4) arbitrary bytes, source literals built from two atoms (raw byte, simple/octal/hex "
          "escape), src commands, @include paths and integers below 10^3 (10^4) are symbolic; the real quoteString, lexer, unquote, "
          "yacc parser and formatter run on them and the solver shows the formatted text lexes/parses back to the same value and is a "
-         "fixed point. Also: a commented call with every subset of local/preflight/volatile in legacy or using syntax (comment kept once, idempotent), the stable topological sort of calls, stage resources from a concrete table of 24 float literals, and a translator self-test on 10 repository files. Partial: kernels, not whole arbitrary files.",
+         "fixed point. Also: a commented call with every subset of local/preflight/volatile in legacy or using syntax (comment kept once, idempotent), the stable topological sort of calls, stage resources from a concrete table of 24 float literals, and a translator self-test on 10 repository files. Partial: kernels, not whole arbitrary files. H_C09_expandedRecompiles: the rendering of the compiled program which mrp records (10 repository programs + a wildcard fixture) compiles on its own, is a fixed point and resolves to the same call graph.",
          "Trusted: go/ssa, symgo, regex VM model, z3. Outside: floats beyond the table, comments elsewhere than on calls, whole-file idempotence, "
          "include-expanded rendering, wider integers. One known finding (non-UTF-8 literal bytes) is reported as KNOWN-FINDING.",
          "DESIGN.md §4 (C09)"),
@@ -101,7 +101,7 @@ CLAIMED = {
          "DESIGN.md §4 (C16)"),
  "C10": ("Partial (order-independence of the emitters): every range over a Go map in the executed code picks an arbitrary permutation "
          "(engine-level nondeterminism); map expressions, binding maps, argument maps, metadata listings and job-script environment blocks with "
-         "2-3 distinct symbolic keys are emitted twice and the solver shows the two outputs are byte-identical on every pair of orders. Ten repository test programs are compiled, formatted and resolved under two fixed engine map orders and Go's random order (native replay) with equal results.",
+         "2-3 distinct symbolic keys are emitted twice and the solver shows the two outputs are byte-identical on every pair of orders. Ten repository test programs are compiled, formatted and resolved under two fixed engine map orders and Go's random order (native replay) with equal results. Four ghost map orders (insertion, reverse, ascending and descending key) in H_SELF_compile / H_SELF_instantiate, six wide-map fixtures, H_C10_resolveErrors (error text of unresolvable parameters).",
          "Trusted: go/ssa, symgo (map-order model), z3. Static fork-id enumeration over a map source (MakeForkIds) is sorted under every iteration order. Outside: whole-pipeline Format/MakeCallGraph identity, error-message order, "
          "cross-process repetition.",
          "DESIGN.md §4 (C10)"),
@@ -109,7 +109,7 @@ CLAIMED = {
          "(node, fork, chunk?, 10-hex uniquifier?, prefix, state) are symbolic; the real makeKeySafe/url.PathEscape, forkString, "
          "ForkIdString, encodeJournalName, parseRunFilename (regex run by a symbolic Pike VM over Go's own compiled program), "
          "find, getFork, Metadata.cache are executed and the solver shows the name is injective and parses back to exactly its "
-         "writer; counterexamples replay natively. Bounded.",
+         "writer; counterexamples replay natively. Bounded. H_C11_resetJournal: the journal clean-up of a partial and of a full reset removes exactly the entries of the job / stage being reset.",
          "Trusted: go/ssa lowering, symgo, the regex VM and Replacer models (validated by native replay of witnesses), z3. "
          "Node.refreshState runs on a symbolic journal listing. Outside: indices >= 1000, nested fork ids in routing, file-name length limits.",
          "DESIGN.md §4 (C11)"),
@@ -125,7 +125,7 @@ CLAIMED = {
  "C19": ("Partial (reference rewriting of rename edits): the real updateRef/updateRefInExp on references with symbolic ids, output paths and "
          "old/new names, and RenameCallable with its edits applied to a hand-built pipeline AST (argument, nested-output, disabled, return and "
          "retain references; alias collision; reverse rename). The solver shows every reference that named the renamed call still names it, "
-         "nothing else changes, and X->Y->X restores the names. Refactor with TopCalls (removal of unused outputs to a fixed point) on a three-level pipeline: the edit applied to a fresh parse, formatted and recompiled still compiles and the top-level call resolves to the same stage inputs and outputs.",
+         "nothing else changes, and X->Y->X restores the names. Refactor with TopCalls (removal of unused outputs to a fixed point) on a three-level pipeline: the edit applied to a fresh parse, formatted and recompiled still compiles and the top-level call resolves to the same stage inputs and outputs. H_C19_unusedShapes: --top-calls with and without --remove-unused-calls around pipelines nobody reads from; H_C19_renameRoundTrip: rename there and back on real text (alias equal to the new name is a known finding).",
          "Trusted: go/ssa, symgo, z3, the fixed AST shape and fixture text. Outside: removal of unused calls, other programs, "
          "input/output renames across files.",
          "DESIGN.md §4 (C19)"),
@@ -135,7 +135,7 @@ CLAIMED = {
          "two files, a struct member, a typed-map value) is arbitrarily null, empty, a file inside the pipestance, never written, a file outside, a relative or an "
          "absolute symlink. Asserted: every existing output is reachable under outs/ with its identity, the rewritten _outs designates it, the reported location "
          "still leads to it, inside files are moved not linked, missing ones become null, non-file values are untouched, no file is lost or duplicated, nothing "
-         "outside the pipestance changes.",
+         "outside the pipestance changes. H_C13_array2d: two-dimensional arrays of files as top-level outputs.",
          "Trusted: go/ssa, symgo, z3, the file-system model and the reference JSON decoder (both in the harness, both part of the claim). Outside: the real "
          "file system (permissions, I/O errors, hard links, links in directory components), compile-time output-name rules, multi-fork top-level calls, directories "
          "as outputs.",
@@ -146,7 +146,7 @@ CLAIMED = {
          "position of the wrong shape, or a struct lacking a member) and runs the real IsValidJson / FilterJson / CanFilter / sameSlice paths: conforming values "
          "and null validate, near-misses do not (user file types: accepted with an alarm, the documented leniency), filtering a valid value reports no error, gives a "
          "valid value, is idempotent, returns its input unchanged when nothing has to be dropped and otherwise drops exactly the undeclared struct fields; a wider "
-         "struct filters to the narrower struct it is assignable to.",
+         "struct filters to the narrower struct it is assignable to. H_C17_assignability: IsAssignableFrom over 13 types and their array / map wrappers is reflexive and componentwise for structs.",
          "Trusted: go/ssa, symgo, z3, the reference JSON decoder in the harness (which byte strings are numbers / strings / booleans is the model's verdict). "
          "Outside: encoding/json itself, integral floats re-written as integers, odd whitespace and escapes, untyped maps, maps of arrays, the full assignability relation.",
          "DESIGN.md §4 (C17)"),
